@@ -16,9 +16,16 @@ package xmodel
 //@ func queryUnconfirmTx
 //@   noverify
 //@   pure
-//@ func xModSnapshot.getBlockHeight
+// The height a writer's block is compared by is the height of THAT block as the ledger
+// stores it - looked up for every block id, whatever the snapshot was created at.
+//@ func XModel.QueryBlock
 //@   noverify
 //@   pure
+//@ func xModSnapshot.getBlockHeight
+//@   property C18
+//@   pure
+//@   ensures height_of_the_named_block: result1 == nil ==> t.xmod.QueryBlock#1(blockid) == nil && result0 == t.xmod.QueryBlock(blockid).Height
+//@   ensures fails_only_if_the_block_is_unknown: result1 != nil ==> t.xmod.QueryBlock#1(blockid) != nil
 
 // The previous version of (bucket, key) as cited by a writer: the reference of its first matching input.
 //@ func xModSnapshot.getPreOutExt
